@@ -364,6 +364,24 @@ func staticValueDeclaredAgain(ops []Op, failed []int) bool {
 	return false
 }
 
+// branchOnPassthroughAfter: after a Compile that failed, a branch is declared on a pass-through node.
+func branchOnPassthroughAfter(ops []Op, failed []int) bool {
+	pass := map[string]bool{}
+	for _, o := range ops {
+		if o.K == "WN" && o.Typ == "P" || o.K == "P" {
+			pass[o.Key] = true
+		}
+	}
+	for _, j := range failed {
+		for _, o := range ops[j:] {
+			if (o.K == "WB" || o.K == "B") && pass[o.From] {
+				return true
+			}
+		}
+	}
+	return false
+}
+
 // compileStageRule: the reference attributes the failure of a Compile to the compile stage proper (an
 // incomplete graph, a bad option set, a loop, an ill-formed nested graph) and not to a declaration that
 // was replayed and refused (a Workflow replays its declarations at Compile; such a refusal sticks).
@@ -474,9 +492,14 @@ func (c *checker) checkCompileHistory(s *Seq, ops []Op, first *attempt, preds []
 			w := witness{Seq: s, Position: i - np, Call: ops[i].String(), Note: v.what + ": " + opsText(v.calls)}
 			if altCls != first.vec[i] {
 				feature := ""
-				if v.class == "after-failed-compile" && staticValueDeclaredAgain(orig, failed) {
+				if v.class == "after-failed-compile" {
 					// (what the sequence contains, not a proven cause)
-					feature = "/static-value-declared-again"
+					switch {
+					case staticValueDeclaredAgain(orig, failed):
+						feature = "/static-value-declared-again"
+					case branchOnPassthroughAfter(orig, failed):
+						feature = "/branch-on-pass-through-node-declared-afterwards"
+					}
 				}
 				c.rep.Violation("C20/compile-not-repeatable/"+s.FE+"/"+v.class+"/compile-outcome"+feature,
 					fmt.Sprintf("the outcome of Compile depends on an earlier Compile of the same objects: %s here, %s for %s\n%s\nalternative: %s",
